@@ -487,13 +487,16 @@ theorem spec_partial (a : DatasetArgs) (q : QueryFacts) (fs : FsFacts) (o : Outc
 `local_dataset.py`, their executors, their `runner.sh` and the two common files. -/
 theorem generated_recognised : unrecognised = [] := by decide
 
-/-- **C17.generated_backends_wellformed** — the three backends are there, and each row is
-consistent across files: main script in the package; the script's result file is the one the
-translator reports (`ANALYSIS.root`) and lands in `/results`; it reads `filelist.txt`; cache
-volumes are mounted at absolute paths away from `/scripts`, `/results`, `/data`, and the ATLAS
-script's calibration cache directory is one of them. -/
+/-- **C17.generated_backends_wellformed** — the three backends are there, each dataset class
+with its own executor, and each row is consistent across files: main script in the package; the
+script's result file is the one the translator reports (`ANALYSIS.root`) and lands in `/results`;
+it reads `filelist.txt`; cache volumes are mounted at absolute paths away from `/scripts`,
+`/results`, `/data`, and the ATLAS script's calibration cache directory is one of them. -/
 theorem generated_backends_wellformed :
-    backends.map (·.key) = ["atlas", "cms_aod", "cms_miniaod"] ∧ ∀ r ∈ backends, RowOk r := by decide
+    backends.map (fun r => (r.key, r.datasetClass, r.executorClass)) =
+      [("atlas", "xAODDataset", "atlas_xaod_executor"), ("cms_aod", "CMSRun1AODDataset", "cms_aod_executor"),
+       ("cms_miniaod", "CMSRun2miniAODDataset", "cms_miniaod_executor")] ∧
+    ∀ r ∈ backends, RowOk r := by decide
 
 /-- the specification for the generated backends (corollary of `spec_partial`) -/
 theorem spec_generated (a : DatasetArgs) (q : QueryFacts) (fs : FsFacts) (o : Outcome)
